@@ -49,6 +49,21 @@ node_references() with the pair's weight compared and its index taken (find_by_i
 graph" is node_indices() or the collected results of the one add_node call (all_node_indices); an iteration through
 element-wise stages (map / collect round trips) is an iteration over the base collection (C13_helpers.reopen); a per-element
 condition held in a local boolean flag is the decisions under which the flag is set (C13_helpers.flag_conds).
+Spelling independence (round 4; C13_helpers "Round 4" section):
+  search loops       `let mut r = None; for x in C { if P(x) { r = Some(x); break } }` and the helper form with `return Some(x)` /
+                     `None` are `C.find(P)` — the rule runs on C13_helpers.normal_slicer, which gives the loop's result that
+                     value, and a Scope counts the loop as a FIND at the site of its next(); R4 follows the loop's result (or the
+                     Option handed up by the helpers around it) to `ok_or(..)?` or to a None arm returning the error
+  failing guards     `match r { Ok(v) => v, Err(e) => return Err(..) }`, `let Some(i) = r else { return Err(..) }` around an effect are
+                     `?`, not per-element selections (total_iterations / failing_guard); `r.map(|v| effect)` whose result must be
+                     Ok / Some for the function to succeed is `let v = r?; effect` (runs_unless_failed); the iterations around an
+                     effect are the natural loops holding it, not loops that merely precede it inside an enclosing loop
+  mapped emission    R2: the returned vector may be the traversal's vector seen through element-wise stages
+                     (`indices.into_iter().map(|i| &graph[i]).collect()`, the index-collecting part a private helper): the element
+                     emitted is the stage applied to the element pushed, and no vector is mutated in between (C13_helpers.emitted)
+  node constructor   R6: the node may be built in a function of the directory, in the closure of the map stage over the
+                     directories, or inline in the body of the loop over them (the directory is then the loop's element); a `?` in
+                     that body is a failing step (its error must fail the caller), not a selection of directories
 Not decided: topological correctness on all DAGs (follows from R1–R3 given petgraph's documented post-order
 semantics); behaviour on cyclic input.
 """
@@ -108,7 +123,8 @@ def call_role(c):
 
 class Scope:
     """one entry function with everything it runs: its closures, the private helpers it reaches, their closures; the
-    calls of the vocabulary as effects in the entry function's terms"""
+    calls of the vocabulary as effects in the entry function's terms.  A search loop (C13_helpers.find_searches) is a FIND at
+    the site of its `next()`"""
 
     def __init__(self, prog, sl, fn):
         self.fn = fn
@@ -117,18 +133,25 @@ class Scope:
             if g not in self.fns:
                 self.fns.append(g)
         self.calls = [c for g in self.fns for c in g.calls]
+        self.searches = {}
+        for g in self.fns:
+            for c in g.calls:
+                if not c.indirect and c.decl == H.IT + 'next':
+                    s = H.search_at(sl, g, self.site(c))
+                    if s is not None:
+                        self.searches[self.site(c)] = s
         vocab = {}
         for c in self.calls:
-            r = call_role(c)
+            r = self.role(c)
             if r:
                 for n in (c.res, c.decl):
-                    if n and classify(n) == r:
+                    if n and (classify(n) == r or self.site(c) in self.searches):
                         vocab[n] = (r, None)
         self.E = Effects(prog, sl, vocab=vocab)
         seen = set()
         self.effs = []
         for e in self.E.expand(fn, 'may'):
-            if e.call is None or call_role(e.call) != e.kind:
+            if e.call is None or self.role(e.call) != e.kind:
                 continue
             k = (e.kind, self.site(e.call), tuple(self.site(l.call) for l in e.chain), canon(e.args))
             if k not in seen:
@@ -139,12 +162,17 @@ class Scope:
     def site(c):
         return (c.fn.path, c.bb)
 
+    def role(self, c):
+        if c.indirect:
+            return None
+        return 'FIND' if self.site(c) in self.searches else call_role(c)
+
     def of(self, kind):
         return [e for e in self.effs if e.kind == kind]
 
     def sites(self, kind):
         """call sites of a role anywhere in the scope (whether or not the effect expansion reaches them)"""
-        return sorted({self.site(c) for c in self.calls if call_role(c) == kind})
+        return sorted({self.site(c) for c in self.calls if self.role(c) == kind})
 
     def all_reached(self, kind):
         return set(self.sites(kind)) <= {self.site(e.call) for e in self.of(kind)}
@@ -243,9 +271,10 @@ def missing_items(rep, prog, sl, S, subject, variant, ok_msg, bad_msg, where):
     for i, e in enumerate(finds):
         conv = [o for o in S.of('OK_OR') if len(o.args) == 2 and error_named(sl, o.args[1], variant)
                 and site_of(lookup_of(H.reduce(sl, o.args[0]))) == S.site(e.call)]
-        ok, why = H.flows_out(prog, e)
+        srch = S.searches.get(S.site(e.call))
+        ok, why = H.flows_out(prog, e, srch)
         if not (ok and conv):
-            ok2, why2 = H.none_is_error(prog, sl, e, variant)
+            ok2, why2 = H.none_is_error(prog, sl, e, variant, srch)
             if ok2:
                 ok, conv = True, [e]
             elif ok:
@@ -327,7 +356,7 @@ def construction_total(rep, prog, sl, SC, cg, edges, w):
 
 
 def run(ctx, rep):
-    prog, sl = ctx.prog, ctx.slicer
+    prog, sl = ctx.prog, H.normal_slicer(ctx.slicer)
     for r, d in (('R1', 'edge orientation dependent -> dependency'), ('R2', 'post-order DFS, emitted in visit order, not reversed'),
                  ('R3', 'one traversal state shared across roots'), ('R4', 'unknown dependency / root is an error'), ('R5', 'root selection, graph and consumption order at the call sites')):
         rep.rule(r, d)
@@ -388,17 +417,30 @@ def run(ctx, rep):
     vsites = {site_of(peel(dict(x[3])['0'])) for x in walk(ret)
               if x[0] == 'agg' and x[2] == 'Ok' and x[3] and peel(dict(x[3])['0'])[0] == 'call' and peel(dict(x[3])['0'])[1] in H.VEC_NEW}
     ret_ok = len(vsites) == 1 and None not in vsites
+    through = None      # the returned collection is the local vector seen through element-wise stages (helpers inlined)
+    if not ret_ok:
+        em = H.emitted(prog, sl, gd)
+        if em is not None:
+            vsites, through, ret_ok = {em[0]}, em[1], True
     app, other, elems = [], [], []
     if ret_ok:
         vsite = next(iter(vsites))
-        app, _, other = H.vec_uses(prog, sl, gd, vsite)
+        holder = prog.fns.get(vsite[0], gd)
+        while holder.kind == 'Closure' and holder.parent in prog.fns:
+            holder = prog.fns[holder.parent]
+        app, _, other = H.vec_uses(prog, sl, holder, vsite)
+        if through is not None:
+            # between the helper that fills the vector and the stages that map it nothing may change a vector
+            other = other + H.vec_mutations(prog, SG.fns, {SG.site(c) for c, _, _ in app})
         for c, g, k in app:
             if k == 'push':
                 # the pushed value in get_dependencies' terms (the push may sit in a helper or closure)
                 es = [e for e in SG.of('PUSH') if SG.site(e.call) == SG.site(c) and len(e.args) == 2 and site_of(peel(e.args[0])) == vsite]
-                elems.extend((a, False) for e in es for (a,) in H.normal_forms(prog, sl, gd, e.args[1:2]))
+                elems.extend((through(a) if through is not None else a, False) for e in es for (a,) in H.normal_forms(prog, sl, gd, e.args[1:2]))
                 if not es:
                     elems.append((('unknown', 'push not reached'), True))
+            elif through is not None:
+                elems.extend((through(a), fl) for a, fl in H.appended(sl, c, g, k))
             else:
                 elems.extend(H.appended(sl, c, g, k))
     shape_ok = len(tsites) == 1 and reached and kind == 'DfsPostOrder' and len(nsites) == 1 and len(app) == 1 and not other and bool(elems)
@@ -503,7 +545,7 @@ def consumption(rep, prog, sl, f, subj, gd_call):
       package-result  its failure is carried out of the caller"""
     from . import C15_helpers as H15
     rep.rule('R7', 'every buildpack of the build order is packaged from its own directory into its own output directory, which later composites are handed')
-    sl = H.subtype_slicer(sl)
+    sl = H.normal_slicer(sl)
     E = Effects(prog, sl, vocab={PKG: ('PACKAGE', 4), MAP_INSERT: ('RECORD', 2)})
     seen, pk, recs = set(), [], []
     for e in H15.expand(E, f, 'may'):
@@ -711,6 +753,18 @@ def result_of(v, name):
     return (v, n) if v[0] == 'call' and v[1] == name and v[2] else None
 
 
+def fallible_source(v):
+    """the call whose Result / Option a `?` branches on (seen through map_err / ok_or / ..), else None"""
+    for _ in range(12):
+        if v[0] == 'updated':
+            v = v[1]
+        elif v[0] == 'call' and v[2] and (v[1] in H.OK_PRESERVING or v[1] == H.TRY_BRANCH):
+            v = v[2][0]
+        else:
+            break
+    return v if v[0] == 'call' and site_of(v) is not None else None
+
+
 def mentions(prog, k, name):
     """the condition involves a call to `name` (in its value, or in the body of the predicate it comes from)"""
     for v in (k.value, k.subject):
@@ -875,18 +929,27 @@ def rule6(ctx, rep):
             for s in blk['s']:
                 if s[0] == '=' and s[2]['r'] == 'agg' and s[2].get('adt') == NODE:
                     ctors.append((g, bi, s[2]))
-    builders = []
+    builders, inline_nodes = [], []
     if not ctors:
         rep.unproven('R6', 'node-dependencies', '-', 'no construction of BuildpackDependencyGraphNode found')
     for n, (g, bi, rv) in enumerate(ctors):
         sfx = '' if len(ctors) == 1 else '#%d' % n
         rep.analysed(g)
         ops = dict(zip(rv.get('fields') or (), rv.get('ops') or ()))
-        if g.kind == 'Closure' or g.argc != 1 or 'dependencies' not in ops or 'buildpack_id' not in ops:
+        # a function of the buildpack directory: a function with that one parameter, the closure of an element-wise stage (its
+        # one argument besides the captured environment), or the body of a loop (helpers inlined: the loop's element)
+        inline = [L for L in H.nat_loops(g) if bi in L.body and bi != L.header and L.next_call.dest and len(L.next_call.dest) == 1]
+        dir_local = 2 if g.kind == 'Closure' else 1
+        if 'dependencies' not in ops or 'buildpack_id' not in ops or (not inline and g.argc != dir_local):
             rep.unproven('R6', 'node-dependencies' + sfx, w(g), 'the node is built in %s, not in a function of the buildpack directory' % g.path)
             continue
-        builders.append(g)
-        dirv = ('param', g.path, 0, g.local_name(1))
+        if inline:
+            L = min(inline, key=lambda L: len(L.body))
+            dirv = peel(sl.mk_unwrap(sl.local(g, L.next_call.dest[0]), 1))     # (comparisons are on peeled values)
+            inline_nodes.append((g, bi, dirv, L))
+        else:
+            builders.append(g)
+            dirv = ('param', g.path, dir_local - 1, g.local_name(dir_local))
         # buildpack_id
         alts = P.of_operand(g, ops['buildpack_id'])
         probs = []
@@ -982,7 +1045,15 @@ def rule6(ctx, rep):
             for nb in builders:
                 fr = fr or result_of(b.elem, nb.path)
             want = 0 if b.form == 'pipeline' else 1
-            if not of_elem(fr, b) or fr[1] != want:
+            # helpers inlined: the node is constructed in the body of the very loop that pushes it — it is the node of that
+            # loop's element (what it is made of is decided by node-id / node-path / node-dependencies on that element)
+            inl = [x for x in inline_nodes if x[0] is b.frame]
+            inlined = fr is None and b.form == 'loop' and b.push is not None and bool(inl) and peel(b.elem)[0] == 'agg' and peel(b.elem)[1] == NODE \
+                and all(b.push.bb in x[3].body for x in inl) and len({x[3].header for x in inl}) == 1 \
+                and not any(b.push.bb in L2.body and len(L2.body) < len(inl[0][3].body) for L2 in H.nat_loops(b.frame))
+            if inlined:
+                fr = None
+            elif not of_elem(fr, b) or fr[1] != want:
                 probs.append(('unproven', 'the value added per directory is not the node built for that directory: ' + vstr(b.elem)[:160]))
                 fr = None
             kinds = None
@@ -997,6 +1068,9 @@ def rule6(ctx, rep):
                         probs.append(('unproven', 'the kind test is necessary for keeping a directory but not shown to be sufficient (%s)' % k.origin))
                 elif of_elem(nr, b) and nr[1] == 0 and ((k.enum == 'std::ops::ControlFlow' and k.outcome == frozenset(['Continue'])) or (k.enum == 'std::result::Result' and k.outcome == frozenset(['Ok']))):
                     pass
+                elif k.kind == 'variant' and k.enum == 'std::ops::ControlFlow' and k.outcome == frozenset(['Continue']) and fallible_source(k.subject) is not None:
+                    # a `?` inside the body is not a selection of directories: the step failed, and so must the caller
+                    errors_fail(prog, sl, call_of(prog, fallible_source(k.subject)), 'a step of the node construction', probs)
                 elif mentions(prog, k, KIND):
                     probs.append(('unproven', 'a test involving determine_buildpack_kind that is not a plain variant decision on its result: %r' % k))
                 else:
